@@ -35,8 +35,8 @@ Breaking   == {"garbage", "conflict"}
 
 (* classes of N: "small" (7), "max" (4294967295), "over" (4294967296), "neg" (-7), "word" (abc), "empty" (nothing after
    the colon), "quoted" ("7"), "plus" (+7), "hex" (0x7), "float" (7.5), "zero" (0), "lead0" (007) *)
-Decimal(v)   == v \in {"small", "max", "zero"}
-Unusable(v)  == v \in {"over", "neg", "word", "empty", "float"}
+Decimal(v)   == v \in {"small", "max"}
+Unusable(v)  == v \in {"over", "neg", "word", "empty", "float", "zero"}   \* 0: IDs start at 1, a recorded 0 is ignored
 Undecided(v) == v \in {"quoted", "plus", "hex", "lead0"}
 
 File == [lines : UNION {[1..n -> LineKinds] : n \in 0..MaxLines}, v : Values, ending : Endings, final : Finals]
